@@ -303,6 +303,7 @@ struct PCfg {
     sink: Policy,
     sinkty: String,
     novideo: bool,
+    twin: String,
 }
 
 fn parse_pcfg(tokens: &[&str]) -> PCfg {
@@ -321,6 +322,7 @@ fn parse_pcfg(tokens: &[&str]) -> PCfg {
         sink: Policy::default(),
         sinkty: "test".into(),
         novideo: false,
+        twin: "none".into(),
     };
     for t in tokens {
         let (k, v) = t.split_once('=').expect("k=v");
@@ -356,6 +358,7 @@ fn parse_pcfg(tokens: &[&str]) -> PCfg {
             "sink" => c.sink = parse_policy(v),
             "sinkty" => c.sinkty = v.to_string(),
             "novideo" => c.novideo = v == "1",
+            "twin" => c.twin = v.to_string(),
             _ => panic!("cfg key {}", k),
         }
     }
@@ -445,24 +448,58 @@ fn run_ops<W: Write>(mut mux: Option<Muxer<W>>, ops: &[&str], len: &dyn Fn() -> 
     out
 }
 
+fn run_once_test(cfg: &PCfg, ops: &[&str]) -> (Vec<String>, Vec<u8>) {
+    let st = Arc::new(Mutex::new(SinkState { policy: cfg.sink.clone(), ..Default::default() }));
+    let sink = TestSink(st.clone());
+    let built = catch_unwind(AssertUnwindSafe(|| build_muxer(cfg, sink)));
+    let st2 = st.clone();
+    let len = move || st2.lock().unwrap().data.len();
+    let replies = match built {
+        Err(_) => vec!["buildpanic+0".to_string()],
+        Ok(Err(e)) => vec![format!("build{}+0", err_reply(&e))],
+        Ok(Ok(m)) => run_ops(Some(m), ops, &len),
+    };
+    let data = st.lock().unwrap().data.clone();
+    (replies, data)
+}
+
 fn run_p(rest: &str) -> String {
     let (cfg_s, ops_s) = rest.split_once('|').unwrap_or((rest, ""));
     let cfg = parse_pcfg(&cfg_s.split_whitespace().collect::<Vec<_>>());
     let ops: Vec<&str> = ops_s.split(';').map(|s| s.trim()).filter(|s| !s.is_empty()).collect();
     match cfg.sinkty.as_str() {
         "test" => {
-            let st = Arc::new(Mutex::new(SinkState { policy: cfg.sink.clone(), ..Default::default() }));
-            let sink = TestSink(st.clone());
-            let built = catch_unwind(AssertUnwindSafe(|| build_muxer(&cfg, sink)));
-            let st2 = st.clone();
-            let len = move || st2.lock().unwrap().data.len();
-            let replies = match built {
-                Err(_) => vec!["buildpanic+0".to_string()],
-                Ok(Err(e)) => vec![format!("build{}+0", err_reply(&e))],
-                Ok(Ok(m)) => run_ops(Some(m), &ops, &len),
-            };
-            let data = st.lock().unwrap().data.clone();
-            format!("{} | file={}", replies.join(" ; "), hex(&data))
+            let (replies, data) = run_once_test(&cfg, &ops);
+            let first = format!("{} | file={}", replies.join(" ; "), hex(&data));
+            match cfg.twin.as_str() {
+                "none" => first,
+                "fast" => {
+                    let mut c2 = parse_pcfg(&cfg_s.split_whitespace().collect::<Vec<_>>());
+                    c2.fast = !cfg.fast;
+                    let (r2, d2) = run_once_test(&c2, &ops);
+                    format!("{} || {} | file={}", first, r2.join(" ; "), hex(&d2))
+                }
+                "nometa" => {
+                    let mut c2 = parse_pcfg(&cfg_s.split_whitespace().collect::<Vec<_>>());
+                    c2.md = false;
+                    let (r2, d2) = run_once_test(&c2, &ops);
+                    format!("{} || {} | file={}", first, r2.join(" ; "), hex(&d2))
+                }
+                "filter" => {
+                    // the same history with the rejected frame-writing calls removed
+                    let mut ops2: Vec<&str> = Vec::new();
+                    for (i, op) in ops.iter().enumerate() {
+                        let rejected = replies.get(i).map(|r| r.starts_with("err:")).unwrap_or(false);
+                        let is_write = ["wv ", "wvd ", "wa ", "ev ", "ea "].iter().any(|p| op.starts_with(p));
+                        if !(rejected && is_write) {
+                            ops2.push(op);
+                        }
+                    }
+                    let (r2, d2) = run_once_test(&cfg, &ops2);
+                    format!("{} || {} | file={}", first, r2.join(" ; "), hex(&d2))
+                }
+                other => panic!("twin {}", other),
+            }
         }
         "vec" => {
             let mut v: Vec<u8> = Vec::new();
